@@ -271,7 +271,8 @@ Example tt_check_discriminates :
        tc_runs := [ {| r_set1 := [[1]; [3]]; r_set2 := [[2]; [6]]; r_bs := 1; r_fail1 := None; r_fail2 := None;
                        r_sched := [true; false; false; true]; r_exc := exc; r_result := Some [res];
                        r_n1 := n1; r_sum1 := [Fin 4 0]; r_sq1 := [sq1]; r_n2 := 2; r_sum2 := [Fin 8 0]; r_sq2 := [Fin 40 0];
-                       r_mean1 := [Fin 2 0]; r_var1 := [Fin 1 0]; r_mean2 := [Fin 4 0]; r_var2 := [Fin 4 0] |} ] |} in
+                       r_mean1 := [Fin 2 0]; r_var1 := [Fin 1 0]; r_mean2 := [Fin 4 0]; r_var2 := [Fin 4 0];
+                       r_over := None; r_fresh := false |} ] |} in
   tt_check (mk (Fin (-5696652996790543) (-52)) 2 (Fin 10 0) 0%nat) = true
   /\ tt_check (mk (Fin (-8056283928194521) (-53)) 2 (Fin 10 0) 0%nat) = false      (* variances with n - 1 *)
   /\ tt_check (mk (Fin (-5696652996790543) (-52)) 1 (Fin 10 0) 0%nat) = false      (* processed_traces not accumulated *)
